@@ -43,7 +43,7 @@ Definition otto_number (v : val) : option (bool * Z) :=
               | [] => Some (true, 0)
               | _ => option_map (fun z => (true, sat64 z)) (parse_digits s 0)
               end
-  | VGet _ _ => None
+  | VGet _ _ _ _ _ => None
   end.
 Definition otto_int64 (v : val) : option Z := option_map snd (otto_number v).
 
@@ -198,5 +198,6 @@ Definition otto_def_array (o : obj) (k : key) (d : desc) (throw : bool) : obj * 
     end
   end.
 
+(* builtinArrayReverse asks hasProperty for both elements before it reads either value (finding class 13) *)
 Definition otto : dialect :=
-  mkDia otto_def_array otto_rel otto_cnt otto_indexof otto_lastindexof.
+  mkDia otto_def_array otto_rel otto_cnt otto_indexof otto_lastindexof true.
